@@ -1,6 +1,7 @@
 // a5h: conformance harness binding the TLA+ specification in /verif/spec to the a5 library in /repo.
 #![allow(dead_code)]
 //   a5h gen <PROP> <tier> <seed> <outdir> [key=value ...]   -> ND-JSON traces + summary.json
+mod compact;
 mod ids;
 mod util;
 
@@ -27,6 +28,8 @@ fn main() {
                 "C05" => ids::gen_c05(tier, seed, out, mc),
                 "C20" => ids::gen_c20(tier, seed, out),
                 "C07" => ids::gen_c07(tier, seed, out),
+                "C08" => compact::gen_c08(tier, seed, out, mc),
+                "C10" => compact::gen_c10(tier, seed, out, mc),
                 "C09" => ids::gen_c09(tier, seed, out, mc, true),
                 _ => {
                     eprintln!("unknown property {}", prop);
